@@ -7,6 +7,8 @@ const driverSrc = `package main
 import (
 	"bufio"
 	"fmt"
+	"context"
+	"errors"
 	"os"
 	"runtime"
 	"strconv"
@@ -18,6 +20,10 @@ import (
 type dErr struct{ i int }
 
 func (e *dErr) Error() string { return "error of function " + strconv.Itoa(e.i) }
+
+type vErr struct{ i int }
+
+func (e vErr) Error() string { return "value error of function " + strconv.Itoa(e.i) }
 
 type op struct {
 	send bool
@@ -121,7 +127,18 @@ func main() {
 		for i := range fs {
 			i := i
 			if fs[i].re != 0 {
-				errs[i] = &dErr{i}
+				// errors of different dynamic types, one of them wrapping context.Canceled: which error Do
+				// returns, and that it returns one, must not depend on what kind of error it is
+				switch i % 4 {
+				case 0:
+					errs[i] = &dErr{i}
+				case 1:
+					errs[i] = errors.New("plain error of function " + strconv.Itoa(i))
+				case 2:
+					errs[i] = fmt.Errorf("function %d gave up: %w", i, context.Canceled)
+				default:
+					errs[i] = vErr{i}
+				}
 			}
 			fns[i] = func() (int, error) {
 				for _, o := range fs[i].ops {
